@@ -1,4 +1,5 @@
 import Proofs.BTreeTree
+import Proofs.BTreeDeleteExact
 import Proofs.BTreeCursor5
 import Proofs.BTreeApi
 import Proofs.BTreeCowSess4
@@ -219,6 +220,77 @@ theorem delete_asShipped_indexError (k : Nat) :
            .leaf [(24, 0), (26, 0), (28, 0), (30, 0), (32, 0)]]) k (by simp [Node.elts, minKeys])]
     rw [hd] at h3
     cases h3
+
+/-! ## `delete_exact` -/
+
+/-- `delete_exact(element)` with the repaired `_delete` (the root is collapsed whenever it is left empty — also when
+the call raises; dnspython f381413 + 90d7725).  Object identity is modelled as equality of (key, value id).
+
+* the element passed is the stored one: the call *is* `delete_key(element.key())`, hence (by `delete_refines`) the
+  tree stays well-formed, its listing loses exactly that key, and the element is returned;
+* any other element (absent key, or another element under a present key): `ValueError`; the rebalancing done on the
+  way down stays, and what is left is a well-formed tree whose root condition holds, with the same listing and the
+  same `size` — so every later operation is again covered by the theorems above. -/
+theorem delete_exact_refines {tr : Tree} (x : Elt) (hw : TreeWf tr) (hr : RootOk tr.root)
+    (hm : tr.immutable = false) (hv : tr.collapseAlways = true) (he : tr.collapseOnError = true) :
+    (lookup tr.items x.1 = some x →
+      TreeWf (tr.delete x.1 (some x)).1 ∧ RootOk (tr.delete x.1 (some x)).1.root ∧
+      (tr.delete x.1 (some x)).1.items = delKey x.1 tr.items ∧ (tr.delete x.1 (some x)).2 = .ok (some x)) ∧
+    (lookup tr.items x.1 ≠ some x →
+      TreeWf (tr.delete x.1 (some x)).1 ∧ RootOk (tr.delete x.1 (some x)).1.root ∧
+      (tr.delete x.1 (some x)).1.items = tr.items ∧ (tr.delete x.1 (some x)).2 = .valueError ∧
+      (tr.delete x.1 (some x)).1.size = tr.size) := by
+  obtain ⟨h1, h2⟩ := tree_delete_exact x.1 x hw hr hm he
+  refine ⟨fun hx => ?_, h2⟩
+  rw [h1 hx]
+  obtain ⟨a, b, c, d⟩ := delete_refines x.1 hw hr hm hv
+  exact ⟨a, b, c, by rw [d, hx]⟩
+
+/-- The same for any key/element pair (the model keeps `key` and `exact` apart like `_Node.delete` does): a failing
+exact deletion never changes the listing, whatever it did to the shape. -/
+theorem delete_exact_failure_keeps_contents {tr : Tree} (k : Nat) (x : Elt) (hw : TreeWf tr) (hr : RootOk tr.root)
+    (hm : tr.immutable = false) (he : tr.collapseOnError = true) (hx : lookup tr.items k ≠ some x) :
+    (tr.delete k (some x)).2 = .valueError ∧ (tr.delete k (some x)).1.items = tr.items ∧
+    TreeWf (tr.delete k (some x)).1 ∧ RootOk (tr.delete k (some x)).1.root := by
+  obtain ⟨a, b, c, d, _⟩ := (tree_delete_exact k x hw hr hm he).2 hx
+  exact ⟨d, c, a, b⟩
+
+/-- the tree of `witnessRoot` as a handle (t = 3, five elements), with and without the repair of 90d7725 -/
+def witnessTree (collapseOnError : Bool) : Tree := ⟨3, witnessRoot, 5, false, false, true, collapseOnError⟩
+
+theorem witnessTree_wf (b : Bool) : TreeWf (witnessTree b) ∧ RootOk (witnessTree b).root :=
+  ⟨⟨by simp [witnessTree], witnessRoot_wf.1, by simp [witnessTree, witnessRoot, flat, inter]⟩,
+    Or.inr (by simp [witnessTree, witnessRoot, Node.elts])⟩
+
+/-- non-vacuity, failing branch: `delete_exact` of an element that is not stored (absent key 5) merges the two
+minimal leaves on its way down and raises; with the repair the emptied root is collapsed … -/
+example : (lookup (witnessTree true).items 5 ≠ some (5, 9)) ∧
+    ((witnessTree true).delete 5 (some (5, 9))).2 = .valueError ∧
+    shapeCode ((witnessTree true).delete 5 (some (5, 9))).1.root =
+      [(true, [(0, 0), (2, 0), (4, 0), (6, 0), (8, 0)], 0)] := by
+  refine ⟨by decide, rfl, by decide⟩
+
+/-- … and without it (the code before 90d7725) the root condition is lost although nothing was deleted: the
+hypothesis `collapseOnError = true` of `delete_exact_refines` cannot be dropped. -/
+theorem delete_exact_unrepaired_loses_rootOk :
+    TreeWf (witnessTree false) ∧ RootOk (witnessTree false).root ∧
+    ((witnessTree false).delete 5 (some (5, 9))).2 = .valueError ∧
+    ¬ RootOk ((witnessTree false).delete 5 (some (5, 9))).1.root := by
+  refine ⟨(witnessTree_wf false).1, (witnessTree_wf false).2, rfl, ?_⟩
+  intro hro
+  rcases hro with hl | hp
+  · have : (((witnessTree false).delete 5 (some (5, 9))).1.root.isLeaf) = false := by decide
+    rw [this] at hl; cases hl
+  · have : ((witnessTree false).delete 5 (some (5, 9))).1.root.elts.length = 0 := by decide
+    omega
+
+/-- non-vacuity, matching branch: the stored element (4, 0) of an internal node is deleted exactly; a foreign element
+under the same key is refused and changes nothing here -/
+example : ((witnessTree true).delete 4 (some (4, 0))).2 = .ok (some (4, 0)) ∧
+    ((witnessTree true).delete 4 (some (4, 0))).1.items = [(0, 0), (2, 0), (6, 0), (8, 0)] ∧
+    ((witnessTree true).delete 4 (some (4, 7))).2 = .valueError ∧
+    ((witnessTree true).delete 4 (some (4, 7))).1.items = (witnessTree true).items := by
+  refine ⟨rfl, by decide, rfl, by decide⟩
 
 /-! ## frozen trees and clones -/
 
